@@ -275,6 +275,41 @@ def case_history(ctx, cfg):
         if e is not None or not np.array_equal(np.asarray(r), exact):
             ctx.fail(f"polygon:{'2d' if dim == 2 else '3d'}:{cname}:original-after-derivation", "contains", {"polygon": name, "embedding": emb, "class": cname}, "membership in the original polygon", e if e is not None else "changed")
             return
+    # members taken out of / rearranged inside a PolygonCollection that has already answered queries: indexing, slicing,
+    # masks, reordering and expand_dims must carry the vertices AND the supporting planes of the right members along
+    poly_b = [(x + 3, y - 2) for x, y in poly]
+    Vb = poly_b if emb == "2d" else [SL.embed(emb, *v) for v in poly_b]
+    ex_m = [exact, np.array([SL.pip(poly_b, q) != "outside" for q in qs2])]
+    mk_poly = lambda W: G.Polygon(*[G.Point(np.array(list(v) + [1], dtype=float)) for v in W])  # noqa: E731
+    PC = G.PolygonCollection([mk_poly(V), mk_poly(Vb)])
+    _ = ctx.call(PC.contains, G.Point(np.array(fpt(Q[0]))))
+    _ = ctx.call(lambda: (PC.edges, PC.area, PC.vertices))
+    derived = [
+        ("pc[0]", lambda: PC[0], [0]),
+        ("pc[1]", lambda: PC[1], [1]),
+        ("pc[-1]", lambda: PC[-1], [1]),
+        ("pc[1:]", lambda: PC[1:], [1]),
+        ("pc[::-1]", lambda: PC[::-1], [1, 0]),
+        ("pc[[1, 0, 1]]", lambda: PC[[1, 0, 1]], [1, 0, 1]),
+        ("pc[mask]", lambda: PC[np.array([False, True])], [1]),
+        ("list(pc)[1]", lambda: list(PC)[1], [1]),
+        ("pc.expand_dims(0)[0]", lambda: PC.expand_dims(0)[0], [0, 1]),
+        ("pc.copy()[1]", lambda: PC.copy()[1], [1]),
+    ]
+    for how, mk, members in derived:
+        D, e = ctx.call(mk)
+        ctx.state((name, emb, "collection-member", how))
+        if e is not None:
+            ctx.fail(f"polygoncollection:{'2d' if dim == 2 else '3d'}:{how}:{type(e).__name__}", how, {"polygon": name, "embedding": emb}, "a polygon (collection)", e)
+            return
+        for j in range(0, len(Q), 5):
+            r, e = ctx.call(D.contains, G.Point(np.array(fpt(Q[j]))))
+            ctx.trace()
+            want = np.array([bool(ex_m[m][j]) for m in members])
+            got = None if e is not None else np.atleast_1d(np.asarray(r))
+            if e is not None or got.shape != want.shape or not np.array_equal(got, want):
+                ctx.fail(f"polygoncollection:{'2d' if dim == 2 else '3d'}:contains-after:{how}", "contains", {"polygon": name, "embedding": emb, "derived_by": how, "q": [str(x) for x in Q[j]]}, want, e if e is not None else got)
+                return
     # query points that are RESULTS of other operations (their representatives are whatever the library produces)
     Pq = G.Polygon(*[G.Point(np.array(list(v) + [1], dtype=float)) for v in V])
     Tq = G.Triangle(*[G.Point(np.array(list(v) + [1], dtype=float)) for v in V[:3]]) if dim == 2 else None
